@@ -1952,3 +1952,55 @@ def wakeup_last(ctx, sc: SimCtx, rule):
                     f'`{short(late[0], 70)}` can run after the worker thread was woken: the run thread already executes simulation events while the command thread is still '
                     'notifying listeners / writing run parameters, so what listeners see and do (draw random numbers, schedule events) depends on thread timing',
                     where='Simulator._start_impl')
+
+
+# --------------------------------------------------------------------------- R5.4 the configured strategy is the one consulted
+def r54_strategy_setter(ctx, sc: SimCtx):
+    """set_error_strategy stores its argument in the field the run-loop handler reads, on every accepted path"""
+    prog = ctx.prog
+    ctx.rule('R5.4', 'set_error_strategy(strategy, ...) stores `strategy` in the field the failure handler consults, on every path that does not refuse the call')
+    dc, fn = prog.resolve(SIM, 'set_error_strategy')
+    if fn is None:
+        raise AnalysisError('anchor vanished: Simulator.set_error_strategy')
+    p = fn.args.args[1].arg
+    g = CFG(fn)
+    stores = [st for st in walk_shallow(fn) if isinstance(st, ast.Assign) and any(is_self_attr(t, '_error_strategy') for t in st.targets)]
+    good = [st for st in stores if unparse(st.value) == p]
+    nodes = [g.node_for(st) for st in good]
+    skipped = g.reaches(g.entry, g.exit, avoid=nodes, labels_excluded=('exc', 'raise', 'reraise')) if nodes else True
+    ok = bool(good) and len(good) == len(stores) and not skipped
+    ctx.ob('R5.4', 'Simulator.set_error_strategy', ok, sample=f'set_error_strategy: stores {[short(st) for st in stores]}; some accepted path skips the store: {skipped}')
+    if not ok:
+        ctx.finding('R5.4', 'Simulator.set_error_strategy:store', dc, stores[0] if stores else fn,
+                    f'set_error_strategy does not store `{p}` as the strategy on every accepted path (a return is reachable without the store, or another value is stored): '
+                    'the run keeps handling failing events with the previously configured strategy', where='Simulator.set_error_strategy')
+
+
+# --------------------------------------------------------------------------- TIME_CHANGED only for executed events
+def time_changed_sites(ctx, sc: SimCtx, rule):
+    """every TIME_CHANGED_EVENT notification belongs to a popped event (fired between its pop and its execution): a silent clock
+    jump (end of a bounded run) must stay silent, or subscribers act once more in an interrupted run than in an uninterrupted one"""
+    prog = ctx.prog
+    ctx.rule(rule, 'TIME_CHANGED_EVENT is fired only for an event that was just popped and is about to be executed (not for the clock jump at the end of a bounded run)')
+    n = 0
+    for ci, fn in sc.sim_functions():
+        fires = _fires_of(fn, 'TIME_CHANGED_EVENT')
+        if not fires:
+            continue
+        g = CFG(fn)
+        pops = [g.node_for(st) for st in walk_shallow(fn) if isinstance(st, (ast.Assign, ast.AnnAssign)) and st.value is not None and isinstance(st.value, ast.Call)
+                and isinstance(st.value.func, ast.Attribute) and st.value.func.attr == 'pop_first']
+        for c in fires:
+            n += 1
+            node = _node_containing(g, c)
+            ok = any(g.dominates(pn, node) for pn in pops)
+            # ... and the loop head is not in between (the pop of this very iteration)
+            if ok:
+                heads = [h for h in g.nodes if h.kind == 'cond' and isinstance(h.stmt, ast.While)]
+                ok = any(g.dominates(pn, node) and not any(g.dominates(pn, h) and g.dominates(h, node) for h in heads) for pn in pops)
+            ctx.ob(rule, f'{ci.name}.{fn.name}:TIME_CHANGED@{getattr(c, "lineno", 0)}', ok, sample=f'{ci.name}.{fn.name}: {short(c, 70)} follows a pop_first() of the same iteration: {ok}')
+            if not ok:
+                ctx.finding(rule, f'{ci.name}.{fn.name}:TIME_CHANGED-without-pop', ci, c,
+                            f'`{short(c, 70)}` is fired on a path that has not popped an event (e.g. when the clock jumps to the bound of run_up_to): a paused run '
+                            'notifies time-change subscribers once more than the uninterrupted run, so what they draw / schedule differs', where=f'{ci.name}.{fn.name}')
+    ctx.floor(rule, 'TIME_CHANGED_EVENT fire sites', n, 2)
